@@ -91,8 +91,14 @@ def collect_shards(procs, work):
         p.wait()
         log.close()
         if os.path.exists(out):
-            with open(out) as fh:
-                results.append(json.load(fh))
+            try:
+                with open(out) as fh:
+                    results.append(json.load(fh))
+            except ValueError:
+                if not os.environ.get("PV_FAIL_FAST"):
+                    raise
+                # sensitivity tooling: a shard stopped while it was writing its result file
+                results.append({"shard": i, "hashseed": None, "clauses": {}, "error": None})
         else:
             with open(os.path.join(work, "shard_%d.log" % i)) as fh:
                 tail = fh.read()[-3000:]
